@@ -107,4 +107,30 @@ def insideNode (a b : Nat) (st : Step) : Bool :=
   | .attr p _ _ => decide (a < p) && decide (p + 1 < b)
   | .docAttr .. => false
 
+/-- **C18 monitor, boundary-inclusive**: the step's range starts after the open token of the node
+    occupying `[a, b)` and ends at or before the position after its close token.  (A replace-family
+    operation may re-close an isolating node and place content that does not fit inside *after* it;
+    what must never happen is that tokens before its opening or after its closing are touched.) -/
+def withinNode (a b : Nat) (st : Step) : Bool :=
+  match st with
+  | .replace F T _ _ => decide (a < F) && decide (F ≤ T) && decide (T ≤ b)
+  | .replaceAround F T _ _ _ _ _ => decide (a < F) && decide (F ≤ T) && decide (T ≤ b)
+  | .addMark F T _ => decide (a < F) && decide (T ≤ b)
+  | .removeMark F T _ => decide (a < F) && decide (T ≤ b)
+  | .addNodeMark p _ => decide (a < p) && decide (p + 1 ≤ b)
+  | .removeNodeMark p _ => decide (a < p) && decide (p + 1 ≤ b)
+  | .attr p _ _ => decide (a < p) && decide (p + 1 ≤ b)
+  | .docAttr .. => false
+
+/-- a pure insertion (empty replaced range) at a position outside the node occupying `[a, b)`:
+    `replace_range_with` may move a block node to the nearest place where it fits (`insert_point`),
+    which can lie outside an isolating node; such a step removes nothing anywhere -/
+def pureInsertOutside (a b : Nat) (st : Step) : Bool :=
+  match st with
+  | .replace F T _ _ => decide (F = T) && (decide (F ≤ a) || decide (b ≤ F))
+  | _ => false
+
+/-- what the C18 correspondence run requires of every emitted step -/
+def isoSafe (a b : Nat) (st : Step) : Bool := withinNode a b st || pureInsertOutside a b st
+
 end PM
